@@ -65,8 +65,7 @@ def s_dtls_magic(vc):
         return
     vc.ensure("only_handshake_records_of_dtls", Implies(r, And(code_at(d, 0) == 22, code_at(d, 1) == 254)))
     vc.ensure("accepts_dtls_1_2", Implies(And(code_at(d, 0) == 22, code_at(d, 1) == 254, code_at(d, 2) == 253), r))
-    vc.ensure_kf("accepts_dtls_1_0_record_version", Implies(And(code_at(d, 0) == 22, code_at(d, 1) == 254, code_at(d, 2) == 255), r),
-                 "KF-C13-1", And(code_at(d, 0) == 22, code_at(d, 1) == 254, code_at(d, 2) == 255))
+    vc.ensure("accepts_dtls_1_0_record_version", Implies(And(code_at(d, 0) == 22, code_at(d, 1) == 254, code_at(d, 2) == 255), r))   # was KF-C13-1
 
 
 # ---------------------------------------------------------------------------------------------
@@ -221,13 +220,13 @@ for _dtls in (False, True):
         abstract_header_predicate(vc, _dtls)
         data = vc.sym_bytes("data")
         out = vc.call(_fn, data)
-        ref = reference_hello(vc, data, _dtls)
+        ref = reference_hello(vc, data, _dtls, max_records=1 if _dtls else 2)
         if ref[0] == "beyond":
             return
         check_against_reference(vc, out, ref, data)
 
     scenario(("dtls." if _dtls else "tls.") + "get_client_hello.reference", functions=[_fn, _gen, N + (":starts_like_dtls_record" if _dtls else ":starts_like_tls_record")],
-             lazy_generators=True, pc_slices=True, inbounds_lengths=True, max_unroll=2, candidates=cands_data(_dtls))(_s_get)
+             lazy_generators=True, pc_slices=True, inbounds_lengths=True, max_unroll=1 if _dtls else 2, candidates=cands_data(_dtls))(_s_get)
 
     def _s_prefix(vc, _dtls=_dtls, _fn=_fn):
         """(P) a complete hello is not changed by any bytes that follow (later records, the next segment)."""
@@ -339,7 +338,7 @@ def complete(c, dtls):
     return And(len_(c) >= 4, len_(c) >= be24(c, 1) + 4)
 
 
-def mk_machine_scenario(dtls):
+def mk_machine_scenario(dtls, shapes=None, tag=""):
     fn = L + (":get_dtls_client_hello" if dtls else ":get_client_hello")
     gen = L + (":dtls_handshake_record_contents" if dtls else ":handshake_record_contents")
     H = 13 if dtls else 5
@@ -374,7 +373,8 @@ def mk_machine_scenario(dtls):
             # header bytes as explicit integers (exhaustive: length 0..hl-1 exactly, or hl header bytes followed by anything)
             import z3
             hl = 12 if dtls else 4
-            k = it.ex.choose(hl + 1, "acc_shape")
+            ks = list(range(hl + 1)) if shapes is None else list(shapes)
+            k = ks[it.ex.choose(len(ks), "acc_shape")]
             parts = [z3.StrFromCode(it.fresh("int", f"acc_b{j}").t % 256) for j in range(k)]
             if k == hl:
                 parts.append(it.fresh("bytes", "acc_rest").t)
@@ -402,11 +402,14 @@ def mk_machine_scenario(dtls):
             vc.ensure("machine.hello.length", len_(out.result) == need)
             vc.ensure("machine.hello.is_prefix_of_accumulated_payloads", startswith(c1, out.result))
 
-    return scenario(("dtls." if dtls else "tls.") + "get_client_hello.machine_step", functions=[fn, gen], lazy_generators=True, pc_slices=True, inbounds_lengths=True, z3_timeout_ms=1500)(s_machine)
+    return scenario(("dtls." if dtls else "tls.") + "get_client_hello.machine_step" + tag, functions=[fn, gen], lazy_generators=True, pc_slices=True, inbounds_lengths=True, z3_timeout_ms=1500)(s_machine)
 
 
 mk_machine_scenario(False)
-mk_machine_scenario(True)
+# DTLS: 13 shapes of the accumulated bytes (0..11 header bytes exactly, or 12 header bytes + anything), split over three scenarios
+mk_machine_scenario(True, range(0, 5), "[acc_len=0..4]")
+mk_machine_scenario(True, range(5, 10), "[acc_len=5..9]")
+mk_machine_scenario(True, range(10, 13), "[acc_len=10..11,>=12]")
 
 
 # ---------------------------------------------------------------------------------------------
